@@ -2,4 +2,5 @@ SPECIFICATION Spec
 INVARIANT XLaws
 INVARIANT ILaws
 INVARIANT CLaws
+INVARIANT VLaws
 CONSTRAINT Emit
